@@ -2,11 +2,13 @@
 
 Streams (model `Wpull.Request` vs the real code in the repo under test):
   prep     Request(url).prepare_for_send(full_url).to_bytes()      function level: generated URLs x proxy/no proxy x fields
+  prep2    prepare_for_send called twice with different full_url (as _process_redirect + Stream.write_request do)
   names    str.title / str.capitalize on field names; basic-auth text; hostname_with_port / URLInfo.url
   referer  WebProcessorSession._populate_common_request (referrer suppression https -> http)
   session  lock-step co-simulation of hop sequences: the REAL WebSession + http Client + Stream + ConnectionPool
            + CookieJarWrapper + DeFactoCookiePolicy + RedirectTracker over harness/fakenet.py, answering from
-           generated redirect scripts; the bytes each fake server receives per hop vs the model's
+           generated redirect scripts; the bytes each fake server receives per hop vs the model's;
+           the same through the REAL HTTPProxyConnectionPool (http chains): absolute-form target on EVERY hop
 Direct oracle (independent of the model) on every real request head: one request line with exactly two SP,
 field lines, blank line, no bare CR/LF, target = path?query (absolute URL with a proxy), exactly one Host equal to
 host[:non-default port] of the hop URL and of the host actually connected to, credentials and cookies only
@@ -115,6 +117,27 @@ def stream_prep(ctx, cases):
         ctx.sample({'stream': 'prep', 'url': meta[0][0], 'fields': meta[0][3], 'full_url': meta[0][4]})
 
 
+def stream_prep2(ctx, cases):
+    """prepare_for_send called twice with (possibly) different full_url: the last call decides"""
+    lines, meta = [], []
+    for url, method, version, pairs, f1, f2 in cases:
+        kind, info = rc.parse_url(url)
+        if kind != 'url':
+            continue
+        lines.append(rc.prep2_line(rc.urlc(info), method, version, pairs, f1, f2))
+        meta.append((url, method, version, pairs, f1, f2, info))
+    replies = ctx.model.ask(lines)
+    for (url, method, version, pairs, f1, f2, info), rep in zip(meta, replies):
+        case = {'stream': 'prep2', 'url': url, 'method': method, 'version': version, 'pairs': pairs, 'full1': f1, 'full2': f2}
+        k, val, _req = rc.real_prep2(url, method, version, pairs, f1, f2)
+        real = ('ok ' + enc(val)) if k == 'ok' else ('exc ' + val)
+        ctx.case(('prep2', url, method, version, tuple(pairs), f1, f2), tags=['prep2:%s->%s' % ('full' if f1 else 'origin', 'full' if f2 else 'origin')])
+        if real != rep:
+            ctx.disagree('prep2', case, rep, real)
+        if k == 'ok' and values_clean(pairs):
+            check_head(ctx, case, val, info, f2, pairs, 'Request.prepare_for_send-twice')
+
+
 # ------------------------------------------------------------------ names / auth / hostport / referer
 def stream_small(ctx, rng, n):
     from wpull.url import URLInfo
@@ -191,12 +214,14 @@ def stream_small(ctx, rng, n):
 CHAIN_HOSTS = ['a.example', 'b.example', 'sub.a.example', 'c.test', '10.0.0.5', '[::1]', 'a.example:8080', 'b.example:81']
 
 
-def gen_location(rng, uid):
-    """a Location value (bytes) or None"""
+def gen_location(rng, uid, http_only=False):
+    """a Location value (bytes) or None; http_only: never an https target (proxy runs: no CONNECT/TLS over fakenet)"""
     r = rng.random()
+    if http_only and 0.73 <= r < 0.85:
+        r = 0.1
     if r < 0.45:
         host = rng.choice(CHAIN_HOSTS)
-        scheme = rng.choice(['http', 'http', 'https'])
+        scheme = 'http' if http_only else rng.choice(['http', 'http', 'https'])
         ui = ''
         if rng.random() < 0.2:
             ui = 'lu%d:lp%d@' % (uid, uid)
@@ -211,18 +236,18 @@ def gen_location(rng, uid):
         return None
     return rng.choice([b'', b' ', b'http://[', b'http://', b'http://h:99999/', b'http://h:x/', b'mailto:x@y', b'ftp://f.example/z',
                        b'http:// sp ace/', b'javascript:void(0)', b'\xff\xfe', b'http://exa mple.test/a b', b'#frag', b'http://a.example:80/d',
-                       b'https://a.example:443/d', b'HTTP://A.EXAMPLE/Up'])
+                       b'http://a.example:443/d' if http_only else b'https://a.example:443/d', b'HTTP://A.EXAMPLE/Up'])
 
 
-def gen_script(rng, hostile_tail=False):
+def gen_script(rng, http_only=False):
     n = rng.choice([0, 1, 1, 2, 2, 3, 4, 5, 6, 8])
     replies = []
     for k in range(n):
         r = rng.random()
         if r < 0.12:
-            rep = {'status': 401, 'location': None if rng.random() < 0.8 else gen_location(rng, k)}
+            rep = {'status': 401, 'location': None if rng.random() < 0.8 else gen_location(rng, k, http_only)}
         else:
-            rep = {'status': rng.choice([301, 302, 303, 307, 307, 308, 308]), 'location': gen_location(rng, k)}
+            rep = {'status': rng.choice([301, 302, 303, 307, 307, 308, 308]), 'location': gen_location(rng, k, http_only)}
         rep['cookies'] = []
         if rng.random() < 0.35:
             c = 'ck%d=v%d' % (k, rng.randrange(1000))
@@ -239,8 +264,10 @@ def gen_script(rng, hostile_tail=False):
     return replies
 
 
-def gen_chain_case(rng):
+def gen_chain_case(rng, proxy=False):
     url = rc.gen_url(rng, hosts=CHAIN_HOSTS[:6], simple=True)
+    if proxy and url.startswith('https://'):
+        url = 'http://' + url[len('https://'):]
     login = None
     if rng.random() < 0.4:
         login = ('GU', 'GP')
@@ -256,7 +283,7 @@ def gen_chain_case(rng):
     if rng.random() < 0.1:
         factory.append(('X-Multi', 'one'))
         factory.append(('X-Multi', 'two'))
-    return {'stream': 'session', 'url': url, 'replies': gen_script(rng), 'max_redirects': rng.choice([0, 1, 2, 3, 5, 20, 20]),
+    return {'stream': 'session', 'url': url, 'proxy': proxy, 'replies': gen_script(rng, http_only=proxy), 'max_redirects': rng.choice([0, 1, 2, 3, 5, 20, 20]),
             'use_jar': rng.random() < 0.75, 'login': login, 'method': method, 'body': body, 'extra': extra, 'factory': factory}
 
 
@@ -298,7 +325,7 @@ def check_session_case(ctx, case):
     m_out, m_last, m_hops = rc.parse_session_reply(rep)
     real_heads = [h[2] for h in res['hops']]
     codes = [r.get('status') for r in replies[:len(res['hops'])]]
-    tags = ['session:hops=%d' % min(len(res['hops']), 9), 'session:' + res['outcome']]
+    tags = ['session:hops=%d' % min(len(res['hops']), 9), 'session:' + res['outcome'], 'session:proxy' if case.get('proxy') else 'session:direct']
     for c in set(codes):
         if c in rc.REDIRECT_CODES:
             tags.append('session:code=%d' % c)
@@ -332,10 +359,29 @@ def check_session_case(ctx, case):
         name = '[%s]' % host if ':' in host else host
         if len(hvals) != 1:
             ctx.fail('host-count', where, case, 'hop %d: Host fields %r' % (k, hvals))
+        elif case.get('proxy'):
+            # every hop goes to the proxy: the target must be the absolute URL of the hop (first request,
+            # follow-up, 307/308 replay or authentication retry alike) and Host must name that URL's host
+            t = target.decode('latin-1')
+            base = res['bases'][k] if k < len(res['bases']) else None
+            if (host, port) != ('proxy.test', 3128):
+                ctx.fail('target-mismatch', where, case, 'hop %d bypassed the proxy: sent to %s:%d' % (k, host, port))
+            elif not t.startswith('http://') or (base is not None and t != base) or (k == 0 and t != info0.url):
+                ctx.fail('target-mismatch', where, case,
+                         'hop %d through the proxy has target %r, URL being fetched %r (head %r)' % (k, t, base if base else info0.url, head[:200]))
+            else:
+                netloc = urllib.parse.urlsplit(t).netloc.rpartition('@')[2]
+                if hvals[0] != netloc:
+                    ctx.fail('host-mismatch', where, case, 'hop %d target %r carries Host %r' % (k, t, hvals[0]))
         elif hvals[0] not in (name, '%s:%d' % (name, port)) or (hvals[0] == name and port not in (80, 443)):
             ctx.fail('host-mismatch', where, case, 'hop %d sent to %s:%d carries Host %r (head %r)' % (k, host, port, hvals[0], head[:200]))
         if not case.get('proxy') and not target.startswith(b'/'):
             ctx.fail('target-mismatch', where, case, 'hop %d target %r' % (k, target))
+        if not case.get('proxy') and k < len(res['bases']) and res['bases'][k]:
+            sp = urllib.parse.urlsplit(res['bases'][k])
+            want = sp.path + ('?' + sp.query if sp.query else '')
+            if target.decode('latin-1') != want:
+                ctx.fail('target-mismatch', where, case, 'hop %d target %r, URL being fetched %r' % (k, target, res['bases'][k]))
         # credentials
         for n, v in fields:
             if n.lower() == 'authorization':
@@ -398,6 +444,8 @@ def replay(ctx, case, kind=None, where=None):
     s = case.get('stream')
     if s == 'prep':
         stream_prep(ctx, [(case['url'], case['method'], case['version'], [tuple(p) for p in case['pairs']], case['full'])])
+    elif s == 'prep2':
+        stream_prep2(ctx, [(case['url'], case['method'], case['version'], [tuple(p) for p in case['pairs']], case['full1'], case['full2'])])
     elif s == 'session':
         check_session_case(ctx, case)
     elif s in ('title', 'auth', 'hostport', 'referer'):
@@ -433,10 +481,17 @@ def run(ctx):
         for full in (False, True):
             cases.append((u, 'GET', 'HTTP/1.1', [('User-Agent', 'x')], full))
     stream_prep(ctx, cases)
+    p2rng = ctx.subrng('prep2')
+    stream_prep2(ctx, [(rc.gen_url(p2rng), 'GET', 'HTTP/1.1', gen_pairs(p2rng, False), p2rng.random() < 0.5, p2rng.random() < 0.5)
+                       for _ in range(ctx.scale(800, 20000))]
+                 + [(u, 'GET', 'HTTP/1.1', [('User-Agent', 'x')], f1, f2) for u in fixed[:6] for f1 in (False, True) for f2 in (False, True)])
     stream_small(ctx, ctx.subrng('small'), ctx.scale(300, 6000))
     srng = ctx.subrng('session')
     for _ in range(ctx.scale(600, 18000)):
         check_session_case(ctx, gen_chain_case(srng))
+    prng = ctx.subrng('session-proxy')
+    for _ in range(ctx.scale(250, 6000)):
+        check_session_case(ctx, gen_chain_case(prng, proxy=True))
     ctx.exhaustive = False
 
 
